@@ -20,7 +20,7 @@ pub struct Case {
 pub const N_CORPUS: u64 = 16;
 
 fn xkey(xk: usize, pre: Vec<ChildNumber>, alts: Vec<ChildNumber>, post: Vec<ChildNumber>, wild: u8) -> GKey {
-    GKey::X { xk, with_origin: false, pre, alts, post, wild, xprv: false }
+    GKey::X { xk, origin: None, pre, alts, post, wild, xprv: false }
 }
 fn single(sk: usize, form: u8) -> GKey { GKey::Single { sk, form, origin: None } }
 
@@ -276,7 +276,11 @@ fn gen_key(w: &World, r: &mut Rng, j: usize, plan: &KeyPlan, used_sk: &mut Vec<u
     }
     let mut k = GKey::X {
         xk,
-        with_origin: r.chance(1, 3) && !w.xks[xk].opath.is_empty(),
+        origin: if r.chance(1, 3) && !w.xks[xk].opath.is_empty() {
+            Some((w.xks[xk].master_fp, w.xks[xk].opath.clone()))
+        } else {
+            None
+        },
         pre,
         alts,
         post,
@@ -372,6 +376,7 @@ pub fn gen_case(w: &World, seed: u64, id: u64) -> Case {
     r.next();
     let kind = id % 8;
     let stream = match (id / 8) % 10 {
+        7 => "shared-origin",
         8 => "mismatch",
         9 => "xprv",
         _ => "main",
@@ -410,7 +415,7 @@ pub fn gen_case(w: &World, seed: u64, id: u64) -> Case {
     };
     let class = match stream {
         "mismatch" => 4,
-        "xprv" => 2,
+        "xprv" | "shared-origin" => 2,
         _ => r.below(6),
     };
     let n_alts = if class == 4 || (class == 5 && r.chance(1, 4)) { 2 + r.below(3) as usize } else { 0 };
@@ -426,6 +431,35 @@ pub fn gen_case(w: &World, seed: u64, id: u64) -> Case {
     for j in 0..nk {
         let k = gen_key(w, &mut r, j, &plan, &mut used_sk, &keys);
         keys.push(k);
+    }
+    if stream == "shared-origin" {
+        // DIFFERENT xpubs that carry the SAME origin text (fingerprint + path, often the all-zero
+        // placeholder of watch-only setups) and the same path after the xpub, within one
+        // descriptor and - the combinations are few - across consecutive descriptors
+        let fp = if r.chance(1, 2) {
+            bitcoin::bip32::Fingerprint::from([0u8; 4])
+        } else {
+            w.xks[r.below(NXK as u64) as usize].master_fp
+        };
+        let opath = vec![cn(true, 48), cn(true, 0), cn(true, 0), cn(true, 2)];
+        let pre: Vec<ChildNumber> = if r.chance(2, 3) { vec![cn(false, 0)] } else { rand_path(&mut r, 2, false) };
+        let alts: Vec<ChildNumber> = if r.chance(1, 3) { vec![cn(false, 0), cn(false, 1)] } else { vec![] };
+        let base = r.below(NXK as u64) as usize;
+        for (j, k) in keys.iter_mut().enumerate() {
+            let mut p = pre.clone();
+            if j >= NXK {
+                p.push(cn(false, 1000 + j as u32));
+            }
+            *k = GKey::X {
+                xk: (base + j) % NXK,
+                origin: Some((fp, opath.clone())),
+                pre: p,
+                alts: alts.clone(),
+                post: vec![],
+                wild: 1,
+                xprv: false,
+            };
+        }
     }
     let mut mismatch = false;
     if stream == "mismatch" && nk >= 2 {
